@@ -1281,6 +1281,50 @@ impl Ctl {
         self.last_body = s;
     }
 
+    fn grace(&mut self) {
+        let nt = self.ws.len();
+        for _ in 0..4 {
+            self.advance();
+        }
+        for u in 0..nt {
+            self.run(u, Op::Collect);
+        }
+        self.advance();
+        for u in 0..nt {
+            self.run(u, Op::Collect);
+        }
+    }
+    /// does the shadow state know a counted strong owner of `obj` (handle, in-transit handle, iterator share, link)?
+    fn strongly_owned(&self, obj: usize) -> bool {
+        if self.sh.iter().any(|s| s.rcs.iter().flatten().any(|h| h.obj == obj) || s.its.iter().flatten().any(|(o, r)| *o == obj && *r > 0)) {
+            return true;
+        }
+        if self.mail.iter().any(|m| m.2 == 'r' && m.3.obj == obj) {
+            return true;
+        }
+        if cells().iter().any(|c| Self::hnd(verif::atomic_rc_word(c)).obj == obj) {
+            return true;
+        }
+        let n = self.nobj();
+        (1..=n).any(|id| {
+            let p = PAYLOAD[id].load(SeqCst) as *const Node;
+            !p.is_null() && NDROP[id].load(SeqCst) == 0 && alloc::nfree(id) == 0 && (0..NFIELD).any(|f| Self::hnd(verif::atomic_rc_word(unsafe { &(*p).next[f] })).obj == obj)
+        })
+    }
+    fn weakly_owned(&self, obj: usize) -> bool {
+        if self.sh.iter().any(|s| s.wks.iter().flatten().any(|h| h.obj == obj)) || self.mail.iter().any(|m| m.2 == 'w' && m.3.obj == obj) {
+            return true;
+        }
+        if wcells().iter().any(|c| Self::hnd(verif::atomic_weak_word(c)).obj == obj) {
+            return true;
+        }
+        let n = self.nobj();
+        (1..=n).any(|id| {
+            let p = PAYLOAD[id].load(SeqCst) as *const Node;
+            !p.is_null() && NDROP[id].load(SeqCst) == 0 && alloc::nfree(id) == 0 && Self::hnd(verif::atomic_weak_word(unsafe { &(*p).wnext })).obj == obj
+        })
+    }
+
     pub fn quit(&mut self) {
         for w in self.ws.iter_mut() {
             w.quit();
@@ -1323,7 +1367,32 @@ impl Ctl {
         if !release {
             return true;
         }
+        // staged release: handles are dropped one at a time; whenever the object just released still has
+        // another owner (handle, link, iterator share - or weak owner for a weak handle), grace periods pass
+        // with collections before the next release, so that an undercount by one becomes a premature
+        // destruct / free that the owner set makes visible
         for t in 0..nt {
+            if self.sh[t].pinned {
+                self.run(t, Op::Unpin);
+            }
+            let its: Vec<usize> = self.sh[t].its.iter().enumerate().filter(|(_, s)| s.is_some()).map(|(i, _)| i).collect();
+            for it in its {
+                self.run(t, Op::IterDrop { it });
+            }
+            let slots: Vec<(usize, usize)> = self.sh[t].rcs.iter().enumerate().filter_map(|(i, h)| h.map(|h| (i, h.obj))).collect();
+            for (slot, obj) in slots {
+                self.run(t, Op::Drop { slot });
+                if obj != 0 && self.strongly_owned(obj) {
+                    self.grace();
+                }
+            }
+            let slots: Vec<(usize, usize)> = self.sh[t].wks.iter().enumerate().filter_map(|(i, h)| h.map(|h| (i, h.obj))).collect();
+            for (slot, obj) in slots {
+                self.run(t, Op::DropWeak { slot });
+                if obj != 0 && self.weakly_owned(obj) {
+                    self.grace();
+                }
+            }
             self.run(t, Op::ReleaseAll);
         }
         self.run(0, Op::ClearCells);
